@@ -44,7 +44,7 @@ P("C01", "other",
   "independent reference, not proved of the definition parser.",
   MIXED + ": proved = dimensional expansion and its memo; bounded = `to` succeeds iff Dim equal, agreement of "
   "is_compatible_with / check / @check / get_compatible_units (exhaustive over the default registry's unit pairs).",
-  standins=["standins.c01_compat"])
+  standins=["standins.c01_compat", "standins.c02_warmcache"])
 P("C02", "other",
   "Deductive: _get_root_units_recurse (factor = product of scale**exponent along the reference chain; root-unit exponents) is "
   "proved against a Lean-checked finite-product theory. Bounded: exactness, numeric-type preservation, identity / inverse / "
@@ -52,7 +52,7 @@ P("C02", "other",
   "Assumed: get_name; positivity of scales (one negative scale in the default registry, electron_g_factor, is outside the proof).",
   MIXED + ": proved = scale accumulation and root-unit exponents for all registries satisfying RegFac; bounded = exact ratios, "
   "type preservation, ulp bound (float), path independence on the default registry.",
-  standins=["standins.c02_factors"])
+  standins=["standins.c02_factors", "standins.c02_warmcache"])
 P("C03", "other",
   "Bounded: covariance of every arithmetic operator under re-expression of the operands in other units, exact in a Fraction "
   "registry, over an exhaustive operand catalogue x 27 operator forms; dimension errors; bare-number rule; in-place forms.",
